@@ -33,7 +33,58 @@ fn gen_history(tape: &[u8], allow_failing: bool, stats: &mut GenStats) -> Option
     // two independent worlds so that "different files with the same base name" really differ
     let a = build_base(&mut t, &cfg, stats)?;
     let sub = super::subtape(tape, 99, 3072);
-    let b = build_base(&mut Tape::new(&sub), &cfg, stats)?;
+    let mut b = build_base(&mut Tape::new(&sub), &cfg, stats)?;
+    if t.chance(50) {
+        // "v2 of the same API": same type names, different structure - recursive input members removed or
+        // turned into lists, nullability of output fields flipped, enum values dropped; the document stays
+        // valid because it never mentions input members and only selects existing fields
+        let mut s2 = a.world.schema.clone();
+        for ii in 0..s2.inputs.len() {
+            let one_of = s2.inputs[ii].one_of;
+            let mut kept = Vec::new();
+            for f in s2.inputs[ii].fields.clone() {
+                if matches!(f.ty.named, crate::world::schema::Named::Input(_)) {
+                    match t.below(3) {
+                        0 => continue,
+                        1 if !one_of => {
+                            let mut f2 = f.clone();
+                            f2.ty = crate::world::schema::TypeExpr::new(f.ty.named, vec![false, true]);
+                            kept.push(f2);
+                        }
+                        _ => kept.push(f),
+                    }
+                } else {
+                    kept.push(f);
+                }
+            }
+            if kept.is_empty() {
+                kept.push(crate::world::schema::InputFieldDef { name: "onlyLeft".into(), ty: crate::world::schema::TypeExpr::plain(crate::world::schema::Named::Int, false), default: None });
+            }
+            s2.inputs[ii].fields = kept;
+        }
+        for o in s2.objects.iter_mut() {
+            if o.implements.is_empty() {
+                for f in o.fields.iter_mut() {
+                    if t.chance(30) {
+                        let l = f.ty.nonnull.len() - 1;
+                        f.ty.nonnull[l] = !f.ty.nonnull[l];
+                    }
+                }
+            }
+        }
+        for e in s2.enums.iter_mut() {
+            if e.values.len() > 2 && t.chance(50) {
+                e.values.pop();
+                e.deprecated_values.clear();
+            }
+        }
+        let text = if a.case.schema_ext == "json" { s2.to_introspection_text(&crate::world::schema::JsonStyle::default()) } else { s2.to_sdl(&crate::world::schema::SdlStyle::default()) };
+        if crate::world::validate::validate(&s2, &a.world.doc).is_empty() {
+            b.case.schema_text = text;
+            b.case.schema_ext = a.case.schema_ext.clone();
+            b.case.document = a.case.document.clone();
+        }
+    }
     let mut files: Vec<(String, Option<String>)> = Vec::new();
     let ext_a = a.case.schema_ext.clone();
     let ext_b = b.case.schema_ext.clone();
@@ -68,8 +119,12 @@ fn gen_history(tape: &[u8], allow_failing: bool, stats: &mut GenStats) -> Option
         files.push(("d1/schema.txt".into(), Some(a.case.schema_text.clone())));
         files.push(("d2/broken_query.graphql".into(), Some("query Q { a { ".into())));
         files.push(("d2/missing_query.graphql".into(), None));
+        // loads and parses, but the generator panics / errors afterwards
+        files.push(("d2/anonymous_query.graphql".into(), Some("query { __typename }\n".into())));
+        files.push(("d2/unknown_variable_type.graphql".into(), Some("query Q($v: ZzNoSuchType) { __typename }\n".into())));
+        files.push(("d2/no_type_condition.graphql".into(), Some("query Q { ... { __typename } }\n".into())));
         bad_schema = vec!["d1/missing.graphql".into(), "d1/broken.graphql".into(), "d1/broken.json".into(), "d1/schema.txt".into()];
-        bad_query = vec!["d2/broken_query.graphql".into(), "d2/missing_query.graphql".into()];
+        bad_query = vec!["d2/broken_query.graphql".into(), "d2/missing_query.graphql".into(), "d2/anonymous_query.graphql".into(), "d2/unknown_variable_type.graphql".into(), "d2/no_type_condition.graphql".into()];
     }
     good_pairs.rotate_left(t.below(5));
     let n_calls = t.range(5, 40);
